@@ -3,12 +3,15 @@ from ..main import run_rule
 from ..typestate import Interp
 from ..facts import AnchorMissing
 
-LEVEL = ("typestate abstract interpretation of the solver life-cycle (7-variant state × decision "
-         "level 0/+) over the MIR of every API entry point and everything it can call, run to a "
-         "fix-point under the most general client (arbitrary sequences of API calls): decides that "
-         "every API return leaves the solver in {Ready, Infeasible, root-Conflict} at level 0, that "
-         "result variant and state agree, and that no life-cycle assertion can fail. Does not decide "
-         "that later answers are correct, nor the absence of data-dependent panics")
+LEVEL = ('typestate abstract interpretation of the solver life-cycle (7-variant state × decision level'
+         ' 0/+) over the MIR of every API entry point and everything it can call, run to a fix-point '
+         'under the most general client (arbitrary sequences of API calls): decides that every API '
+         'return leaves the solver in {Ready, Infeasible, root-Conflict} at level 0, that result '
+         'variant and state agree, and that no life-cycle assertion can fail. posting and variable-'
+         'creating API functions are inert while an inconsistency is recorded (T10) and add_clause / '
+         "add_propagator leave at once in every inconsistent state, with the guards' truth tables "
+         'interpreted from MIR (T11). Does not decide that later answers are correct, nor the absence '
+         'of data-dependent panics')
 TECHNIQUE = "static analysis: typestate abstract interpretation over rustc MIR (most general client)"
 NOTE = ("trusted: rustc MIR/type resolution; the trail level is abstracted to {0,+} with "
         "Assignments::{increase_decision_level,synchronise,get_decision_level} and backtrack as "
